@@ -147,6 +147,24 @@ def build_steps(events, nz: Normalizer, loop_bodies: dict, pending_expect: dict)
         if e.name == 'Iterator::take' and e.args and e.args[0] == BUFFER_ITER:
             nz.names[e.result] = ('take', nz.norm(e.args[1]))
             continue
+        if e.name in ('Iterator::copied', 'Iterator::cloned') and e.args and nz.norm(e.args[0])[0] == 'take':
+            nz.names[e.result] = nz.norm(e.args[0])
+            continue
+        if e.name == 'Iterator::collect' and e.args and nz.norm(e.args[0])[0] == 'take':
+            # `iterator.take(n).copied().collect()`: a length-prefixed list read whose operands stop silently at end of input
+            cnt = nz.norm(e.args[0])[1]
+            while isinstance(cnt, tuple) and cnt and cnt[0] in ('cast', 'as') and len(cnt) >= 2 and isinstance(cnt[-1], tuple):
+                cnt = cnt[-1]
+            if isinstance(cnt, tuple) and cnt[0] == 'byte' and steps and steps[-1][0] == 'byte' and steps[-1][1] == cnt[1] \
+                    and cnt[1] == nz.nbyte:
+                steps.pop()                      # the length byte belongs to the list operand
+                nz.nbyte -= 1
+                pending_expect = {k: v for k, v in pending_expect.items() if v < len(steps)}
+            nz.nlist += 1
+            nz.names[e.result] = ('list', nz.nlist)
+            steps.append(('list', nz.nlist))
+            steps.append(('silent-adapter', 'Iterator::take'))
+            continue
         if e.name == 'Iterator::for_each' and len(e.args) == 2 and nz.norm(e.args[0])[0] == 'take' \
                 and e.args[1][0] == 'closure' and EVAL is not None:
             # `iterator.take(n).for_each(|b| ..)`: an operand loop whose byte read stops silently at end of input
